@@ -218,3 +218,32 @@ def process_attribs_item(prop="C04"):
     c.ensures("recorded_statements_are_consumed", lambda v0, res, v1: z3.Not(z3.Select(v1.heap.dict_has(adict(v1)), key(v0))))
     c.no_raise = True
     return c
+
+
+# ------------------------------------------------------------------ a type's constructor (generic interface of the same name) shares the type's accessibility
+def constructor_block(prop="C04"):
+    """FortranType.correlate, `# Find a constructor` statement: a type and the generic interface of the same name are one identifier in Fortran, so an access
+    statement or attribute for the name applies to both; FORD applies it to the type (process_attribs) and copies it to the interface here."""
+    from pyvc.blocks import between
+    c = base(Contract("ford.sourceform", "FortranType.correlate", prop))
+    c.qual_suffix = "constructor"
+    c.block_select = between("if self.name.lower() in self.all_procs", "self.sort_components()")
+    c.dropped.append("block contract: the statement `if self.name.lower() in self.all_procs: ...` of FortranType.correlate")
+    c.fields.update({"name": "str", "all_procs": "dict:str:ref", "constructor": "ref", "permission": "str", "num_lines": "int", "num_lines_all": "int"})
+    c.param("self", TRef("FortranType"))
+    c.param("project", TOpaque("project"))
+    tab = lambda v: SDict(sel(H(v, "all_procs"), v.self), "str", "ref")
+    key = lambda v: LOWER(sel(H(v, "name"), v.self))
+    has = lambda v: z3.Select(v.heap.dict_has(tab(v)), key(v))
+    proc = lambda v: z3.Select(v.heap.dict_val(tab(v)), key(v))
+    c.requires("table_entries_are_objects_other_than_the_type", lambda v: z3.Implies(has(v), z3.And(proc(v) > 0, proc(v) != v.self)))
+
+    def post(v0, res, v1):
+        p = proc(v0)
+        return z3.If(has(v0),
+                     z3.And(sel(H(v1, "constructor"), v0.self) == p, sel(H(v1, "permission"), p) == sel(H(v0, "permission"), v0.self),
+                            sel(H(v1, "permission"), v0.self) == sel(H(v0, "permission"), v0.self)),
+                     z3.And(sel(H(v1, "constructor"), v0.self) == sel(H(v0, "constructor"), v0.self), H(v1, "permission") == H(v0, "permission")))
+    c.ensures("the_same_named_generic_interface_becomes_the_constructor_and_takes_the_accessibility_of_the_type", post)
+    c.no_raise = True
+    return c
